@@ -11,7 +11,7 @@ text relies on precedence and left-to-right association.
 import random
 
 import expparse
-from expparse import Expr
+from expparse import Expr, mk_expr
 
 ROW = {"**": 3}
 for _o in ("*", "/", "DIV", "MOD", "AND", "||"):
@@ -753,7 +753,7 @@ def ctype(t, norm):
         lo = None if t[2] is None else cexpr(t[2], norm)
         hi = None if t[3] is None else cexpr(t[3], norm)
         if lo is None and norm.default_bounds and t[1] != "ARRAY":
-            lo, hi = Expr("0"), Expr("?")
+            lo, hi = mk_expr(("int", 0)), mk_expr(("const", "?"))
         return ("agg", t[1], lo, hi, bool(t[4]), bool(t[5]), ctype(t[6], norm))
     if k == "generic":
         return ("generic", t[1])
@@ -793,7 +793,7 @@ def cstmt(s, norm):
         incr = None
         if s[1] is not None:
             v, lo, hi, by = s[1]
-            cby = cexpr(by, norm) if by is not None else (Expr("1") if norm.default_increment else None)
+            cby = cexpr(by, norm) if by is not None else (mk_expr(("int", 1)) if norm.default_increment else None)
             incr = (v, cexpr(lo, norm), cexpr(hi, norm), cby)
         return ("repeat", incr, None if s[2] is None else cexpr(s[2], norm), None if s[3] is None else cexpr(s[3], norm),
                 cstmts(s[4], norm))
